@@ -254,9 +254,10 @@ def run(prog, tier):
     # ---------------------------------------------------------------- refit order
     body = ae.body
     def line_of(pred):
-        for st in body:
+        # position in the statement list (inlined helper code shares line numbers, so positions order the statements)
+        for k_, st in enumerate(body):
             if pred(st):
-                return st.lineno
+                return k_ + 1
         return None
     ra = Resolver(ae, prog, c.module, c)
     nx, ny = ae.args.args[1].arg, ae.args.args[2].arg
@@ -275,7 +276,7 @@ def run(prog, tier):
                 if i_ < len(call.args):
                     kw.setdefault(nm_, U(call.args[i_]))
         ok = (isinstance(call, ast.Call) and U(call.func) == "GpRegressor" and kw.get("x") == "self.x" and kw.get("y") == "self.y"
-              and kw.get("y_err") == "self.y_err" and max(l_x, l_y) < gp_st[0].lineno < l_up)
+              and kw.get("y_err") == "self.y_err" and max(l_x, l_y) < body.index(gp_st[0]) + 1 < l_up)
         why = f"append lines {l_x},{l_y}; refit line {gp_st[0].lineno} with {kw}; update line {l_up}"
     else:
         why = f"append lines {l_x},{l_y}; refits {len(gp_st)}; update line {l_up}"
